@@ -10,13 +10,13 @@ OUTSIDE = "more than two modules; three or more references perturbed at once; Au
 BOUNDS = {
     "quick": "two-module message with one node of every kind; each of the 7 reference fields (symbol referent, entry point, edge source/target, SymAddrConst symbol, SymAddrAddr symbol1/2) "
              "x 9 targets (code/data/proxy/symbol/section/interval/module/IR/unknown UUID); several references to one node; AuxData UUID/Offset/sequence/set/mapping entries at IR and module level "
-             "x 11 targets with a symbolic displacement",
-    "thorough": "as quick plus every pair of reference fields x 81 target pairs",
+             "x 11 targets with a symbolic displacement; every pair of reference fields x 81 target pairs; "
+             "an expression of the second module naming a symbol of the first; cfg.vertices listing whatever the edges name",
+    "thorough": "as quick",
 }
 
 
 def shards(tier):
-    out = [{"fn": "refs1", "consts": {}, "timeout": 600}, {"fn": "aux_refs", "consts": {}, "timeout": 900}]
-    if tier != "quick":
-        out.append({"fn": "refs2", "consts": {}, "timeout": 1800})
+    out = [{"fn": "refs1", "consts": {}, "timeout": 600}, {"fn": "aux_refs", "consts": {}, "timeout": 900},
+           {"fn": "refs2", "consts": {}, "timeout": 1800}]
     return out
